@@ -78,6 +78,12 @@ structure Host where
   startOffset : Nat := 0
   objs : List (Nat × Obj) := []
   lo : List Env := []         -- loopback messages in flight (spawned tasks)
+  -- the host runtime's tokio clock (ns since the runtime was created; always on the ms grid at a
+  -- window start)
+  winStart : Nat := 0         -- Instant at the start of the current step window (`timer.now`)
+  hnow : Nat := 0             -- Instant "now" of the scripted task
+  wake : Option Nat := none   -- the scripted task sleeps until this Instant
+  t0 : Nat := 0               -- Instant at which the current software incarnation started
   deriving Repr, Inhabited
 
 inductive Ora | fail (b : Bool) | repair | delay (ns : Nat)
